@@ -39,7 +39,8 @@ enum Flag : unsigned {
   F_ARENA_MISMATCH       = 1u << 6,   // block released through an allocator that does not compare equal to the one that made it
   F_DEFAULT_ALLOC        = 1u << 7,   // memory obtained through a default-constructed allocator instead of the supplied instance
   F_FREE_WITH_LIVE_ITEMS = 1u << 8,   // a block is released while live items are still inside it
-  F_MOVE_FROM_MOVED      = 1u << 9    // a moved-from object is moved from again (reported separately, not a hygiene failure)
+  F_MOVE_FROM_MOVED      = 1u << 9,   // a moved-from object is moved from again (reported separately, not a hygiene failure)
+  F_CALLER_MEMORY        = 1u << 10   // memory that belongs to the caller (wrapped / initialize_by_* buffers) was passed to the allocator
 };
 
 struct Block { size_t bytes; size_t n; int arena; bool item; };
@@ -54,6 +55,7 @@ struct State {
   long item_slots = 0;                       // sum of element counts of live item-bearing blocks
   long live_bytes = 0, item_bytes = 0;
   long allocs = 0, deallocs = 0;
+  std::map<uintptr_t, size_t> caller;        // caller-owned buffers handed to wrap / initialize_by_*: [start, start+len)
 };
 inline State& st() { static State s; return s; }
 inline void flag(unsigned f) { st().flags |= f; }
@@ -62,7 +64,7 @@ inline void flag(unsigned f) { st().flags |= f; }
 inline void reset_tracking() {
   State& s = st();
   for (auto& kv : s.blocks) std::free(reinterpret_cast<void*>(kv.first));
-  s.blocks.clear(); s.live.clear();
+  s.blocks.clear(); s.live.clear(); s.caller.clear();
   s.live_items = 0; s.item_slots = 0; s.live_bytes = 0; s.item_bytes = 0; s.flags = 0; s.throw_countdown = -1;
 }
 
@@ -197,7 +199,13 @@ public:
     State& s = st();
     if (p == nullptr) { return; }
     auto it = s.blocks.find(reinterpret_cast<uintptr_t>(p));
-    if (it == s.blocks.end()) { flag(F_UNKNOWN_BLOCK); return; }   // not freed: ASan/LSan will have more to say
+    if (it == s.blocks.end()) {
+      const uintptr_t q = reinterpret_cast<uintptr_t>(p);
+      auto ci = s.caller.upper_bound(q);
+      if (ci != s.caller.begin() && (--ci, q < ci->first + ci->second)) flag(F_CALLER_MEMORY);
+      else flag(F_UNKNOWN_BLOCK);
+      return;   // not freed: ASan/LSan will have more to say
+    }
     const Block b = it->second;
     if (b.bytes != n * sizeof(T)) flag(F_SIZE_MISMATCH);
     if (b.arena != arena) flag(F_ARENA_MISMATCH);
